@@ -3,7 +3,8 @@
 # check reported in seeded/<id>/detected.json (layers: oracle = direct oracle on the implementation with a replay,
 # correspondence = model/implementation mismatches, proof = broken obligation / anchor).
 cd /verif
-for d in seeded/C*-m*; do
+# optional arguments: the seed directories to run (default: all)
+for d in ${*:-seeded/C*-m*}; do
   id=$(basename $d); prop=${id%-*}
   patch=$d/patch.diff
   [ -f $d/patch_recreated.diff ] && patch=$d/patch_recreated.diff
